@@ -6,7 +6,7 @@ from models import refprint
 ID = "C16"
 RULE = (
     "case = (print template assembled from <=3 (thorough 4) chunks over 10 text chunks and 6 (thorough 12) reference forms, subject only "
-    "to the constraints the reference notation itself imposes; file; qualifier form plain | onmatch | once, default or named printer stream, with and without print-mode: no-default, and in a CsvPath built with the delimiter ';'); run as the real csvpath "
+    "to the constraints the reference notation itself imposes; file; qualifier form plain | onmatch | once, default or named printer stream, with and without print-mode: no-default, in a CsvPath built with the delimiter ';', and across a reset_headers() that moves the header names); run as the real csvpath "
     "'@x = #a  @d.k = #b  push(\"s\", #a)  print(\"<template>\")' (+ a filter for onmatch) and compared per executed line with "
     "models/refprint.py: one printer entry per execution, every reference replaced by the current value, every other character "
     "unchanged, '..' directly after a reference = one literal dot; non-trivial = the template has a reference followed by text or by "
@@ -14,7 +14,7 @@ RULE = (
 )
 BOUNDS = {
     "quick": "every name-terminating punctuation character (23) directly after each of 9 reference forms, followed by text and by another reference; all well-formed chunk sequences of length <=3 over 10 text chunks + 9 references; 2 files x plain, 1 file x onmatch/once for templates of length <=2",
-    "thorough": "all well-formed chunk sequences of length <=4 over 10 text chunks + 6 references, length <=3 over 13 references, length 5 over 4 text chunks + 4 references, length <=4 over 5 text chunks + 13 references; 3 files x 7 forms (length >=4: one file, plain form)",
+    "thorough": "all well-formed chunk sequences of length <=4 over 10 text chunks + 6 references, length <=3 over 13 references, length 5 over 4 text chunks + 4 references, length <=4 over 5 text chunks + 13 references; 3 files x 8 forms (length >=4: one file, plain form)",
 }
 CHUNK = 250
 BUDGET = {"quick": 600, "thorough": 3400}
@@ -95,6 +95,7 @@ def cases(tier, seed):
                 yield {"t": t, "file": 2, "form": "once_named"}
                 yield {"t": t, "file": 1, "form": "nodefault"}
                 yield {"t": t, "file": 1, "form": "semi"}
+                yield {"t": t, "file": 0, "form": "reset"}
     else:
         seen = set()
         for t in itertools.chain(templates(4, REFS6), templates(3, REFS12), templates(5, REFS6[:4], texts=[" ", "..", "a.b ", ": "]), templates(4, REFS12, texts=[" ", "..", ",", "x y", ")/"])):
@@ -103,7 +104,7 @@ def cases(tier, seed):
                 continue
             seen.add(k)
             for f in range(3):
-                for form in ("plain", "onmatch", "once", "named", "once_named", "nodefault", "semi"):
+                for form in ("plain", "onmatch", "once", "named", "once_named", "nodefault", "semi", "reset"):
                     if len(t) >= 4 and (f != 0 or form != "plain"):
                         continue
                     yield {"t": t, "file": f, "form": form}
@@ -120,14 +121,19 @@ def run_case(case):
     rows = FILES[fi]
     if form == "lastblank":
         rows = rows + [[]]
+    if form == "reset":
+        # record 2 is a new header row (same names, other positions); reset_headers() fires on it, a data record follows
+        rows = [rows[0], rows[1], ["b", "77", "a", "x y"], ["r1", "r2", "r3", "r4"]]
     dl = ";" if form == "semi" else ","  # the same prints in a CsvPath built with another delimiter, in the same process
     path = sandbox.write_csv(rows, delimiter=dl)
     tmpl = refprint.render(t)
-    q = {"plain": "", "onmatch": ".onmatch", "once": ".once", "named": "", "once_named": ".once", "nodefault": "", "lastblank": "", "semi": ""}[form]
+    q = {"plain": "", "onmatch": ".onmatch", "once": ".once", "named": "", "once_named": ".once", "nodefault": "", "lastblank": "", "semi": "", "reset": ""}[form]
     pm = " print-mode: no-default" if form == "nodefault" else ""  # only the registered capture printer exists: it must still get every entry
     filt = ' #a == "k"' if form == "onmatch" else ""
     stream = ', "audit"' if form in ("named", "once_named") else ""
     text = f'~ title: T 1{pm} ~ ${path}[*][ @x = #a @d.k = #b push("s", #a) print{q}("{tmpl}"{stream}){filt} ]'
+    if form == "reset":
+        text = f'~ title: T 1 ~ ${path}[*][ line_number() == 2 -> reset_headers() @x = #a @d.k = #b push("s", #a) print("{tmpl}") ]'
     if form == "lastblank":
         text = f'~ title: T 1 ~ ${path}[*][ @x = #a @d.k = #b push("s", #a) last.nocontrib() -> print("{tmpl}") ]'
     o = run.run_csvpath(text, delimiter=dl)
@@ -154,8 +160,10 @@ def run_case(case):
             }))
             continue
         scans += 1
-        x = row[0].strip()
-        d = {"k": row[1].strip()}
+        if form == "reset" and i == 2:
+            hdrs = [h.strip() for h in row]
+        x = row[hdrs.index("a")].strip()
+        d = {"k": row[hdrs.index("b")].strip()}
         stack.append(x)
         if form == "onmatch" and x != "k":
             continue
